@@ -128,9 +128,9 @@ def store_case(job, res):
     def key_loc(k):
         p = k.split(":")
         if p[0] == "O":
-            return loc.get("O:" + p[1]) if p[-1] == "frame" else None
+            return loc.get("O:" + p[1]) if "frame" in p[2:] else None
         if p[0] == "L":
-            return loc.get("L:" + p[1]) if p[-1] == "frame" else None
+            return loc.get("L:" + p[1]) if "frame" in p[2:] else None
         if p[0] == "R":
             return loc.get("R:" + p[1]) if len(p) == 2 else None
         if p[0] == "H":
@@ -177,7 +177,7 @@ def store_case(job, res):
         elif kind == "df":
             t = rec["target"]
             o = loc["O:" + t[2:]] if t.startswith("O:") else loc[t]
-            sops.append("(SDf %s)" % nat(o))
+            sops.append("(SDf %s %s)" % ({"df": "ADf", "billing_df": "ABillingDf"}.get(rec.get("attr", "df"), "AOther"), nat(o)))
             if rec["alias"]:
                 loc["H:%d" % rec["new_hand"]] = o
                 sobs.append((changed, 0))
@@ -262,6 +262,8 @@ def correspondence(run, jobs, results, flags):
             for rec in res["trace"]:
                 ofam = rec.get("other_family", job["fam"])
                 if rec["op"][0] == "fit_other" and rec.get("fit") == "Fitted" and ofam in ("Daily", "Billing", "Hourly"):
+                    if not isinstance(rec.get("model_dq"), int):
+                        continue
                     poor = rec["model_dq"] > rec["data_dq_before"]
                     fterms.append("(%s, %s, %s, (%s, %s))" % (
                         "current_fit_copies %s" % ofam, coq_bool(poor), nat(rec["data_dq_before"]),
